@@ -85,6 +85,7 @@ def recount(segs, check_lx=False):
             hl_count = 0
             hl_chain = []
             hl_stale = []
+            lx = 0          # service lines are numbered within a claim; a new set cannot continue the previous set's claim
         elif sid == 'SE':
             if top != 'ST':
                 r.nested = False
@@ -131,8 +132,9 @@ def recount(segs, check_lx=False):
                     if pn is not None and pn not in hl_chain and pn in hl_stale:
                         r.hl2_dontcare = True
                     if pn is None or pn not in hl_chain:
+                        # not an open ancestor: this HL is wrong; the open chain is what it was (a later HL that names a
+                        # still-open ancestor is right)
                         r.errors.append((i, 'seg', 'HL2'))
-                        hl_chain = []
                     else:
                         while hl_chain and hl_chain[-1] != pn:
                             hl_chain.pop()
